@@ -551,7 +551,7 @@ class Piece:
             self.subs.append((m.start(), m.end(), new, rule))
         return len(ms)
 
-    def rewrite_slices(self, required=False):
+    def rewrite_slices(self, required=False, ref_base=False):
         """Catalogue R5 (+R6), token level, shape independent:
              [&]base[lo..hi] -> slice_subrange(base, lo, hi)
              [&]base[lo..]   -> slice_from(base, lo)
@@ -596,6 +596,8 @@ class Piece:
             if b - 1 >= lo_i and code[b - 1].text == "&":
                 start_tok = b - 1
             base = src.text[code[b].start:code[k - 1].end]
+            if ref_base:
+                base = "&" + base
             lo = src.text[code[k + 1].start:code[dots - 1].end].strip() if dots > k + 1 else ""
             hi = src.text[code[dots + 1].start:code[close - 1].end].strip() if close > dots + 1 else ""
             if lo and hi:
